@@ -10,11 +10,11 @@ git -C /repo worktree add -q --detach $WT HEAD || exit 3
 cd $WT/rolling-shutter
 cp $D/*_test.go $PKG/ 2>/dev/null
 echo "== demo WITHOUT the change (must pass)"
-go test -vet=off -count=1 -run "$RUN" ./$PKG/ 2>&1 | tail -3; A=${PIPESTATUS[0]}
+go test ${SEEDTAGS:-} -vet=off -count=1 -run "$RUN" ./$PKG/ 2>&1 | tail -3; A=${PIPESTATUS[0]}
 git -C $WT apply $D/patch.diff || { echo "patch does not apply"; exit 4; }
 echo "== build with the change"; go build ./... 2>&1 | tail -3
 echo "== demo WITH the change (must fail)"
-go test -vet=off -count=1 -run "$RUN" ./$PKG/ 2>&1 | tail -4; B=${PIPESTATUS[0]}
+go test ${SEEDTAGS:-} -vet=off -count=1 -run "$RUN" ./$PKG/ 2>&1 | tail -4; B=${PIPESTATUS[0]}
 rm -f $PKG/$(basename $(ls $D/*_test.go | head -1)); git -C $WT checkout -- rolling-shutter/go.mod rolling-shutter/go.sum 2>/dev/null
 echo "== full test suite WITH the change (must pass)"
 go test -vet=off -count=1 ./... 2>&1 | grep -v "no test files" | grep -v "^ok" | head -10; C=${PIPESTATUS[0]}
